@@ -29,6 +29,10 @@ type Arg struct {
 	N1, N2 int
 	Seq0   int64
 	Pad    int // extra payload bytes per push
+	// Send: push number q carries Pads[q % len(Pads)] padding bytes (Pad when Pads is empty),
+	// the response RPad bytes - sizes vary within one handler's issue sequence
+	Pads []int
+	RPad int
 	// how Send issues its pushes: 0 PushMessageById to the requester; 1 PushMessageByIds to
 	// Ids; 2 broadcast through a channel holding Ids (all on the requester's front)
 	Mode int
@@ -185,7 +189,19 @@ func (h *H) Block(ctx *impls.HandlerContext, a *Arg, cb apientry.HandlerCBFunc) 
 func (h *H) Send(ctx *impls.HandlerContext, a *Arg, cb apientry.HandlerCBFunc) {
 	s := h.n.logInvocation(ctx, "send", a.T)
 	r := h.reply(ctx, s, "sent", a)
-	pad := strings.Repeat("x", a.Pad)
+	pads := map[int]string{}
+	padOf := func(q int64) string {
+		n := a.Pad
+		if len(a.Pads) > 0 {
+			n = a.Pads[int(q%int64(len(a.Pads)))]
+		}
+		p, ok := pads[n]
+		if !ok {
+			p = strings.Repeat("x", n)
+			pads[n] = p
+		}
+		return p
+	}
 	ctr := &h.n.ctr[InstOf(s.name)]
 	seq := a.Seq0
 	var ch *channel.Channel
@@ -202,7 +218,7 @@ func (h *H) Send(ctx *impls.HandlerContext, a *Arg, cb apientry.HandlerCBFunc) {
 	push := func(k int) {
 		for i := 0; i < k; i++ {
 			*ctr++
-			body := &PushBody{Svc: s.name, T: a.T, Seq: seq, Ctr: *ctr, Pad: pad}
+			body := &PushBody{Svc: s.name, T: a.T, Seq: seq, Ctr: *ctr, Pad: padOf(seq)}
 			switch {
 			case a.Mode == 1:
 				app.PushMessageByIds(s.NodeService, r.Front, a.Ids, "onSeq", body)
@@ -218,6 +234,7 @@ func (h *H) Send(ctx *impls.HandlerContext, a *Arg, cb apientry.HandlerCBFunc) {
 	push(a.N1)
 	*ctr++
 	r.Ctr = *ctr
+	r.Pad = strings.Repeat("x", a.RPad)
 	apientry.CheckInvokeCBFunc(cb, nil, r)
 	push(a.N2)
 }
